@@ -12,6 +12,7 @@ package harness
 
 import (
 	"fmt"
+	"math"
 	"math/bits"
 	"sort"
 
@@ -135,6 +136,58 @@ func AlphaEdge(n int) []uint64 {
 	}
 	m := mask(n)
 	return uniq([]uint64{0, 1, 2, 3, m - 1, m, uint64(1) << uint(n-1), uint64(1)<<uint(n-1) - 1}, n)
+}
+
+// AlphaGrid: the edge alphabet plus a g-point grid (enough to hit every small bit length of a biased draw).
+func AlphaGrid(g int) func(n int) []uint64 {
+	return func(n int) []uint64 {
+		if n == 0 {
+			return []uint64{0}
+		}
+		vs := append([]uint64{}, AlphaEdge(n)...)
+		for j := 0; j < g; j++ {
+			if n >= 64 {
+				vs = append(vs, uint64(j)*(^uint64(0)/uint64(g)))
+			} else {
+				hi, lo := bits.Mul64(uint64(j), uint64(1)<<uint(n))
+				q, _ := bits.Div64(hi, lo, uint64(g))
+				vs = append(vs, q)
+			}
+		}
+		return uniq(vs, n)
+	}
+}
+
+// AlphaLog: 2^n - 2^n*2^(-j/step) for j = 0..n*step: log-spaced towards the top, so that a draw that is
+// turned into a geometric variate (bit length of a biased integer) can take every integer outcome.
+func AlphaLog(step int) func(n int) []uint64 {
+	return func(n int) []uint64 {
+		if n == 0 {
+			return []uint64{0}
+		}
+		vs := []uint64{0, mask(n)}
+		top := math.Ldexp(1, n)
+		for j := 0; j <= n*step; j++ {
+			f := 1 - math.Exp2(-float64(j)/float64(step))
+			v := f * top
+			if v >= top {
+				v = top - 1
+			}
+			vs = append(vs, uint64(v))
+		}
+		return uniq(vs, n)
+	}
+}
+
+// AlphaUnion merges alphabets.
+func AlphaUnion(as ...func(n int) []uint64) func(n int) []uint64 {
+	return func(n int) []uint64 {
+		var vs []uint64
+		for _, a := range as {
+			vs = append(vs, a(n)...)
+		}
+		return uniq(vs, n)
+	}
 }
 
 // AlphaFull: {0,1,2,3} u {2^k, 2^k-1, 2^n-2^k : k<n} u {max-1,max} u {j*2^n/grid : j<grid}
